@@ -60,4 +60,5 @@ def main(tier):
     chk.run("R-INCLUDENAME", B.includename, cx.repo, floor=3)
     chk.run("R-ARRAYSTORAGE", C.arraystorage, cx.repo, floor=12)
     chk.run("R-CONSTWRITE", B.constwrite, cx.repo, floor=5)
+    chk.run("R-CXX11CONSTEXPR", C.cxx11constexpr, cx.repo, floor=40)
     return chk.finish()
